@@ -17,11 +17,14 @@ def showWDays : Option (List WDay) → String
 
 def showPo (po : ParseOpts) : String := s!"|i{showBool po.ignoretz}t{showBool po.tzinfos}"
 
-/-- a date value and the options its `parser.parse` call gets (`ignoretz` makes a `Z` value naive) -/
-def showDate (txt : List Char) (po : ParseOpts) : String :=
+/-- a date value and the options its `parser.parse` call gets (`ignoretz` makes a `Z` value naive; a resolved TZID makes it aware) -/
+def showDateTz (txt : List Char) (po : ParseOpts) (tzid : Option (List Char)) : String :=
   match parseCompact txt with
-  | .compact y m d hh mm ss z => s!"c:{y},{m},{d},{hh},{mm},{ss},{showBool (z && !po.ignoretz)}" ++ showPo po
+  | .compact y m d hh mm ss z => s!"c:{y},{m},{d},{hh},{mm},{ss},{showBool ((z && !po.ignoretz) || tzid.isSome)}" ++ showPo po ++
+      (match tzid with | some n => "+tzid=" ++ hexL n | none => "")
   | .other _ => "o"
+
+def showDate (txt : List Char) (po : ParseOpts) : String := showDateTz txt po none
 
 def showArgs (a : RArgs) : String :=
   " ".intercalate [showOptInt a.freq, showOptInt a.interval, showOptInt a.count, showOptInt a.wkst,
@@ -30,18 +33,18 @@ def showArgs (a : RArgs) : String :=
     showOptList a.byeaster, showOptList a.byweekno, showWDays a.byweekday, showOptList a.byhour,
     showOptList a.byminute, showOptList a.bysecond]
 
-/-- the start every rule is built with: the DTSTART line's value, else the `dtstart=` keyword -/
-def showDtstart (kw : Bool) : Option DateV → String
+/-- the start every rule is built with: the DTSTART line's value, else the `dtstart=` keyword; `tz` = `tzidOf text opts` -/
+def showDtstart (kw : Bool) (tz : List (List Char) → Option (List Char)) : Option DateV → String
   | none => if kw then "kw" else "-"
-  | some (v, parms, po) => showDate v po ++ (if parms.any (fun p => startsWith p (lit "TZID=")) then "+tzid" else "")
+  | some (v, parms, po) => showDateTz v po (tz parms)
 
-def showParsed (kw : Bool) : Parsed → String
-  | .rule a dt cache => "rule " ++ showDtstart kw dt ++ " cache=" ++ showBool cache ++ " {" ++ showArgs a ++ "}"
+def showParsed (kw : Bool) (tz : List (List Char) → Option (List Char)) : Parsed → String
+  | .rule a dt cache => "rule " ++ showDtstart kw tz dt ++ " cache=" ++ showBool cache ++ " {" ++ showArgs a ++ "}"
   | .set rr ex rd exd dt rdd cache =>
-      "set " ++ showDtstart kw dt ++ " " ++ showBool rdd ++ " cache=" ++ showBool cache ++
+      "set " ++ showDtstart kw tz dt ++ " " ++ showBool rdd ++ " cache=" ++ showBool cache ++
       " rr=" ++ "|".intercalate (rr.map (fun a => "{" ++ showArgs a ++ "}")) ++
       " ex=" ++ "|".intercalate (ex.map (fun a => "{" ++ showArgs a ++ "}")) ++
-      " rd=" ++ Py.showList (fun p => showDate p.1 p.2) rd ++ " exd=" ++ Py.showList (fun p => showDate p.1 p.2.2) exd
+      " rd=" ++ Py.showList (fun p => showDate p.1 p.2) rd ++ " exd=" ++ Py.showList (fun p => showDateTz p.1 p.2.2 (tz p.2.1)) exd
 
 def parseWDays? (s : String) : Option (Option (List WDay)) :=
   if s == "-" then some none else
@@ -67,7 +70,7 @@ def handle (op : String) (args : List String) : Option String :=
       let f := o.toList.map (· == '1')
       let opts : Opts := { unfold := f.getD 0 false, forceset := f.getD 1 false, compatible := f.getD 2 false,
                            ignoretz := f.getD 4 false, tzinfos := f.getD 5 false, cache := f.getD 6 false }
-      some (Py.showR (showParsed (f.getD 3 false)) (parseRfc s.toList opts (f.getD 3 false)))
+      some (Py.showR (showParsed (f.getD 3 false) (tzidOf s.toList opts)) (parseRfc s.toList opts (f.getD 3 false)))
   | "rrs.line", [h] => do
       let s ← parseHexString? h
       some (Py.showR showArgs (parseRRuleLine {} (ICal.upper s.toList)))
